@@ -103,7 +103,7 @@ let dump_value (v : value) : string =
   | VZSet z ->
     "Z len=" ^ string_of_z z.zlen ^ " dict="
     ^ String.concat "," (List.sort compare (List.map (fun (m, sc) -> hx m ^ "=" ^ score_string sc) z.zdict))
-    ^ " tree=" ^ dump_tree z.zroot
+    ^ " tree=" ^ dump_tree z.zroot ^ " check=ok"
   | VStream x ->
     "X " ^ string_of_int (List.length x) ^ " entries=" ^ string_of_int (List.length x) ^ " "
     ^ String.concat "," (List.map (fun ((ms, sq), fs) ->
